@@ -84,6 +84,9 @@ def keys_of(v, vec):
     if v.get("xov", 0) > 0:
         out.append((cfg + ":executor-concurrent-nexthost", "queryExecutor with speculative execution: %d call(s) entered the NextHost "
                     "function of one query while another call was inside it; offered %s" % (v["xov"], [g["picks"] for g in vec["groups"]])))
+    for g in v.get("midbad", []):
+        out.append((cfg + ":midplan-down-host-offered", "routing token %s: after %s had been offered host %s was reported down (state + HostDown); "
+                    "the rest of the same plan still offered it: %s" % (g["q"], g["first"], g["victim"], g["rest"])))
     for g in v["bad"]:
         for k in sorted(g.get("stored", [])):
             out.append((cfg + ":stored-replicas-" + k, "routing token %s: the policy's replica map holds %s, Cassandra's placement on the "
@@ -219,6 +222,7 @@ def run(ctx):
     # ---- 3. exact agreement with the prediction, else TLC judges the real sequences
     agree, differ, sampled, picks_real = 0, [], [], 0
     n_il, iters_il, ilvecs = 0, 0, []
+    nmid = 0
     with open(rp) as f:
         for n, line in enumerate(f):
             vec = json.loads(line)
@@ -227,6 +231,10 @@ def run(ctx):
                 g["picks"] == e and not any(g["capped"]) for g, e in zip(vec["groups"], exp[vec["id"]])) and all(
                 # ... and the replica list the policy holds is Cassandra's placement, element for element
                 g["realrep"] == pl for g, pl in zip(vec["groups"], place[vec["id"]]))
+            # a plan whose rest offered the host that was reported down meanwhile: TLC judges the vector
+            if any(m["victim"] in m["rest"] for m in vec.get("mid", [])):
+                same = False
+            nmid += len(vec.get("mid", []))
             if same and vec["il"]:
                 # interleaved iterators have no predicted sequence: TLC judges them (the sequential groups,
                 # identical to the prediction, need not be judged again)
@@ -242,6 +250,9 @@ def run(ctx):
     ctx.log("real policies: %d cases, %d picks drained; exact agreement %d, judged by TLC %d (+%d agreeing as binding sample)" % (
         ncases, picks_real, agree, len(differ), len(sampled)))
     ctx.log("interleaved iterators: %d cases, %d iterators" % (n_il + sum(1 for v in differ if v["il"]), iters_il))
+    ctx.log("plans during which a not yet offered host was reported down: %d" % nmid)
+    if nmid == 0:
+        raise vf.Inconclusive("no plan with a host reported down in its middle was recorded")
     vecs = differ + sampled + ilvecs
     byid = {v["id"]: v for v in vecs}
     viol, drift, tr1 = validate(ctx, "cases", vecs, 900 if quick else 2400)
